@@ -53,6 +53,72 @@ def model_check(chk, tier):
     return out
 
 
+def algorithm_models(chk):
+    """FdOps: every failure position of the modelled multi-call operations.  The programs as they
+    are now must be leak-free in the model; the programs of the pinned tree must leak (TLC finds
+    the positions first, the binding confirmed them on the real code - see notes/C12.md)."""
+    res = core.run_tlc("FdOps_MC.tla", "FdOps_MC_fixed.cfg", workers=1, timeout=300, xmx="1g")
+    core.tlc_must_pass(res, "FdOps fixed")
+    chk.add_tlc(res)
+    fixed = res.printed("F")
+    res2 = core.run_tlc("FdOps_MC.tla", "FdOps_MC_pinned.cfg", workers=1, timeout=300, xmx="1g")
+    core.tlc_must_pass(res2, "FdOps pinned (enumeration)")
+    pinned = res2.printed("F")
+    res3 = core.run_tlc("FdOps_MC.tla", "FdOps_MC_pinned_noleak.cfg", workers=1, timeout=300, xmx="1g")
+    if "NoLeak" not in res3.invariant_violated:
+        raise core.ToolError("FdOps: TLC finds no leak in the pinned programs (vacuous model)")
+    if len(fixed) != res.distinct - len({v["prog"] for v in fixed}) * 0 and not fixed:
+        raise core.ToolError("FdOps printed no vectors")
+    return fixed, pinned
+
+
+INPUT_SCENARIO = {"unix_connect": "unix_connect_long_path", "unix_bind": "unix_bind_long_path"}
+
+
+def conformance(fixed, dry, results):
+    """compare the model's vectors with the recorded runs. results: {(scenario, k): (leak?, closes_after, errname)}"""
+    div = []
+    compared = 0
+    progs = {}
+    for v in fixed:
+        progs.setdefault(v["prog"], []).append(v)
+    for prog, vs in progs.items():
+        if prog not in dry:
+            div.append({"prog": prog, "what": "no such scenario"})
+            continue
+        model_calls = [c for c in vs[0]["calls"] if c]
+        real_calls = [c["name"] for c in dry[prog][2]]
+        # the drops at the successful return are implicit in the model (Finish): the real run may
+        # end with the close calls of the dropped OwnedFds
+        rest = real_calls[len(model_calls):]
+        if model_calls != real_calls[:len(model_calls)] or any(c != "close" for c in rest):
+            div.append({"prog": prog, "what": "call sequence", "model": model_calls, "real": real_calls})
+            continue
+        for v in vs:
+            if v["input"]:
+                sc = INPUT_SCENARIO.get(prog)
+                if sc and (sc, None) in results:
+                    compared += 1
+                    leak, _, _ = results[(sc, None)]
+                    ncalls = len([c for c in v["calls"][:v["failstep"] - 1] if c])
+                    real_n = len(dry[sc][2])
+                    if leak != (v["leaked"] > 0) or ncalls != real_n:
+                        div.append({"prog": prog, "what": "input failure", "model": {"leak": v["leaked"] > 0, "calls": ncalls},
+                                    "real": {"leak": leak, "calls": real_n}})
+                continue
+            key = (prog, v["k"] if v["failstep"] else None)
+            if key not in results:
+                continue
+            leak, closes, errname = results[key]
+            if errname == "EINTR":
+                continue   # retried by the code: a different path than "this call fails"
+            compared += 1
+            if leak != (v["leaked"] > 0) or (v["failstep"] and closes != v["closed_after"]):
+                div.append({"prog": prog, "k": v["k"], "what": "outcome", "model": {"leak": v["leaked"] > 0, "closed_after": v["closed_after"]},
+                            "real": {"leak": leak, "closed_after": closes, "errno": errname}})
+    return compared, div
+
+
 def scenarios(bindir):
     p = core.run_cmd([os.path.join(bindir, "fdops"), "list"])
     return [l.strip() for l in p.stdout.splitlines() if l.strip()]
@@ -84,6 +150,7 @@ def window(run):
     state = "before"
     injected = None
     foreign_marks = 0
+    closes_after = 0
     for e in ev:
         if e["ev"] == "mark":
             if e.get("foreign"):
@@ -110,7 +177,9 @@ def window(run):
             if state == "op" and e["src"] == "exe":
                 calls.append({"k": e["k"], "name": name, "ret": ret})
             if inj:
-                injected = {"k": e["k"], "name": name, "ret": ret, "mode": inj["mode"]}
+                injected = {"k": e["k"], "name": name, "ret": ret, "mode": inj["mode"], "closes_after": 0}
+            elif injected is not None and state == "op" and name == "close" and real in (0, -9):
+                injected["closes_after"] += 1
             executed = not (inj and inj["mode"] == "s")
             if not executed:
                 continue
@@ -149,6 +218,7 @@ def run(tier):
     SJ.build_tracer()
     bindir = core.cargo_build(bins=["fdops"])
     mc = model_check(chk, tier)
+    fixed_vecs, pinned_vecs = algorithm_models(chk)
     scens = scenarios(bindir)
     # 1. dry runs: the calls each scenario performs
     plan = []
@@ -195,12 +265,27 @@ def run(tier):
             os.unlink(r["log"]) if it["k"] is not None else None
         except OSError:
             pass
+    # anti-vacuity: three synthetic windows that break one obligation each must be reported
+    CANARY = 10 ** 6
+    trace += [
+        {"ev": "begin", "run": CANARY + 1, "pre": [0, 1, 2], "owned": []}, {"ev": "create", "fds": [3], "call": "socket"},
+        {"ev": "return", "res": "err", "handed": [], "exact": True, "snap": [0, 1, 2, 3]}, {"ev": "end", "run": CANARY + 1, "snap": [0, 1, 2, 3]},
+        {"ev": "begin", "run": CANARY + 2, "pre": [0, 1, 2], "owned": []}, {"ev": "create", "fds": [3], "call": "socket"},
+        {"ev": "close", "fd": 3}, {"ev": "close", "fd": 3},
+        {"ev": "return", "res": "err", "handed": [], "exact": True, "snap": [0, 1, 2]}, {"ev": "end", "run": CANARY + 2, "snap": [0, 1, 2]},
+        {"ev": "begin", "run": CANARY + 3, "pre": [0, 1, 2, 3], "owned": []}, {"ev": "close", "fd": 3},
+        {"ev": "return", "res": "ok", "handed": [], "exact": True, "snap": [0, 1, 2]}, {"ev": "end", "run": CANARY + 3, "snap": [0, 1, 2]},
+    ]
     path = os.path.join(chk.work, "fdtable_trace_%s.ndjson" % tier)
     core.write_ndjson(path, trace)
     res = core.run_tlc("FdTableTrace.tla", "FdTableTrace.cfg", workers=1, env={"TRACE": path}, timeout=1800, xmx="4g", deque=True)
     core.tlc_must_pass(res, "FdTableTrace")
     chk.add_tlc(res)
     verdicts = {w["run"]: w for w in res.printed("W")}
+    canary = {n: verdicts.pop(n, {"bad": []})["bad"] for n in (CANARY + 1, CANARY + 2, CANARY + 3)}
+    if canary != {CANARY + 1: ["Leak"], CANARY + 2: ["DoubleClose"], CANARY + 3: ["ForeignClose"]}:
+        raise core.ToolError("FdTableTrace did not report the synthetic violations: %s" % canary)
+    chk.extra["synthetic_windows_rejected"] = 3
     if not res.printed("DONE") or len(verdicts) != len(meta):
         raise core.ToolError("FdTableTrace consumed %d of %d windows: %s" % (len(verdicts), len(meta), res.out[-1500:]))
     chk.traces = len(verdicts)
@@ -226,6 +311,22 @@ def run(tier):
         if n % 37 == 0:
             chk.sample({"scenario": it["scenario"], "fail_call_index": it["k"], "fail_call": fname, "errno": it.get("errname"),
                         "calls": [c["name"] for c in calls], "broken": bad})
+    # algorithm-level conformance (never a verdict): FdOps vectors vs the recorded runs
+    results = {}
+    for n, w in verdicts.items():
+        it, evs, calls, injected, r = meta[n]
+        if it["k"] is not None and (injected is None or it.get("errname") != TYPICAL.get(it.get("call"), "EINVAL")):
+            continue
+        leak = "Leak" in w["bad"] or "Leak" in w["snapbad"]
+        results[(it["scenario"], it["k"])] = (leak, injected["closes_after"] if injected else 0, it.get("errname"))
+    compared, divergences = conformance(fixed_vecs, dry, results)
+    chk.extra["model_conformance"] = not divergences
+    chk.extra["algorithm_model"] = {"programs": sorted({v["prog"] for v in fixed_vecs}), "failure_positions": len(fixed_vecs),
+                                    "compared_with_real_runs": compared, "divergences": divergences[:10],
+                                    "pinned_tree_leaks_predicted": sorted({"%s@%s" % (v["prog"], "input" if v["input"] else ("success" if not v["failstep"] else "%s#k%d" % (v["calls"][v["failstep"] - 1], v["k"])))
+                                                                           for v in pinned_vecs if v["leaked"]})}
+    if divergences:
+        core.log("model drift (FdOps vs real runs), not a verdict:", json.dumps(divergences[:3]))
     chk.nontrivial = len(nontrivial)
     chk.exhaustive = True
     chk.rule = ("%d scenarios (public descriptor-creating operations of tiny-std fs/net/process/epoll/passwd/openpty and rusl "
